@@ -521,6 +521,7 @@ class World:
             r.disk = deep(r.model)
         if "locks" in o:
             self.check_locks(name)
+        self.check_frozen(f"op {name}")
         if "backend" in o:
             self.check_backend(only_on_mut=not mutated)
         if "nowrite" in o and not mutated:
@@ -547,8 +548,12 @@ class World:
                         self.probe("forced_flush_observed")
                     r.disk = deep(r.model)
                     continue
+            if obs is not ABSENT:
+                r.ever_on_disk = True
             if obs is ABSENT and exp is ABSENT:
                 continue
+            if obs is ABSENT and not getattr(r, "ever_on_disk", False) and exp in ({}, []):
+                continue  # a resource that never existed is equivalent to empty logical content
             if exp is ABSENT and obs is not ABSENT and r.bufstate is None and same(obs, r.model):
                 # a failed mutator may create the resource with exactly the (empty) logical content
                 r.disk, r.exists = deep(r.model), True
@@ -611,8 +616,36 @@ class World:
             self.backend_depth[cls] = self.backend_depth.get(cls, 0) + 1
             self.ctx.append({"kind": "backend", "cls": cls, "cm": cm, "cap_before": before_cap, "cap": cap})
         self.stat("ctx_enter")
+        self.freeze()
+        self.check_frozen("context enter")
+        if "backend" in self.oracles:
+            self.check_backend(what="after context enter")
         if "bufsize" in self.oracles:
             self.check_bufsize("after enter")
+
+    def freeze(self):
+        """Record the signature of every file whose object(s) just became buffered (oracle 'frozen')."""
+        if "frozen" not in self.oracles or self.cfg.get("forced_flush_possible"):
+            return
+        for ob in self.objs:
+            if ob.alive and hasattr(ob.o, "buffered") and self.is_buffered(ob):
+                r = self.res[ob.rid]
+                if r.frozen is None:
+                    r.frozen = (self.file_sig(r), self.listing())
+
+    def check_frozen(self, what):
+        if "frozen" not in self.oracles:
+            return
+        for r in self.res:
+            if r.frozen is not None:
+                sig = self.file_sig(r)
+                if sig != r.frozen[0]:
+                    raise Violation("written_while_buffered", f"{what}: file of resource {r.rid} was "
+                                    f"{'created' if r.frozen[0] is None else 'rewritten'} before its outermost buffered context exited")
+                mine = {os.path.basename(x.ident) for x in self.res if x.store == "file"}
+                tmp = [x for x in self.listing() if x not in r.frozen[1] and x not in mine]
+                if tmp:
+                    raise Violation("written_while_buffered", f"{what}: new files {tmp} appeared while buffered")
 
     def st_exit(self, st):
         if not self.ctx:
@@ -650,8 +683,9 @@ class World:
                     r.disk = deep(r.model)
                     written.add(r.rid)
                 r.bufstate = None
-                r.frozen = None
+            r.frozen = None
             ob.touched = False
+        self.check_frozen("context exit")
         o = self.oracles
         if "locks" in o:
             self.check_locks("context exit")
